@@ -11,8 +11,6 @@ package dns
 // at the returns where they are defined; the early returns (owner without a zone part, name outside the
 // zone) are covered by `zone`.
 
-//@ func HashName [C17]
-//@   pure
 //@ extern strings.ToUpper
 //@   pure
 //@ extern strings.ToLower
@@ -22,11 +20,11 @@ package dns
 //@   exit zone:     ret0 ==> callres("IsSubDomain")
 //@   exit strict:   ret0 ==> nameHash != ownerHash
 //@   exit interval: callres("IsSubDomain") ==> ret0 == ((ownerHash == nextHash) ? (nameHash != ownerHash) : (strlt(nextHash, ownerHash) ? (strlt(ownerHash, nameHash) || strlt(nameHash, nextHash)) : (strlt(ownerHash, nameHash) && strlt(nameHash, nextHash))))
-//@   pure
+
 
 //@ func (*NSEC3).Match [C17]
 //@   exit match: ret0 == (callres("IsSubDomain") && ownerHash == nameHash)
-//@   pure
+
 
 // ---- key tag (RFC 4034 Appendix B) -----------------------------------------------------------------------------
 // ktsum(w, n): the running sum over the first n octets of the DNSKEY RDATA: octets at even positions count
